@@ -92,3 +92,16 @@ Definition enc_case_ok (k : enc_case) : bool :=
     end
   end.
 Definition enc_mismatches (l : list enc_case) : list nat := mism enc_case_ok 0 l.
+
+(* ---- containment run: one attacker connection of the real MOSN (engine v2?, bytes sent, connection closed by the
+   server?, an error reply seen?).  closed <-> the dispatch model is dead; on a connection that stays open a reply event of the model must
+   show up as an error reply (the converse does not hold: the proxy also answers e.g. unroutable requests) ---- *)
+Definition conn_case := (bool * bytes * bool * bool)%type.
+Definition conn_case_ok (k : conn_case) : bool :=
+  match k with
+  | (v2, b, closed, reply) =>
+    let s := feed (if v2 then boltv2_parse else bolt_parse) init b in
+    Bool.eqb (dead s) closed && negb (stuck s) &&
+    (negb (existsb (fun e => match e with EReply _ => true | _ => false end) (out s)) || reply || closed)
+  end.
+Definition conn_mismatches (l : list conn_case) : list nat := mism conn_case_ok 0 l.
